@@ -314,7 +314,7 @@ def match_link_label(string, offset, root=None):
             end = i
             label = string[start + 1:end]
             match_info = start, end + 1, label
-            if label.strip() != '':
+            if label.strip() != '' and len(label) <= 999:
                 ref = root.footnotes.get(normalize_label(label), None)
                 if ref is not None:
                     return match_info, ref
@@ -340,7 +340,7 @@ def get_link_label(text, root):
             return None
         elif escaped:
             escaped = False
-    if text.strip() != '':
+    if text.strip() != '' and len(text) <= 999:
         return root.footnotes.get(normalize_label(text), None)
     return None
 
